@@ -154,6 +154,12 @@ Definition exp_part (r : string) : option Z :=
 
 (* readFloat + atof (decimal) / atofHex, without underscores: exact value, then one correct rounding.
    Exponents beyond any representable magnitude are decided without computing the power. *)
+(* the exact rational a literal denotes (decimal: mant * 10^e10, hexadecimal: mant * 2^e2), rounded once *)
+Definition dec_round (mant e10 p emin emaxe : Z) : option (Z * Z) :=
+  let '(n, d) := if 0 <=? e10 then (mant * 10 ^ e10, 1) else (mant, 10 ^ (- e10)) in round_rat n d p emin emaxe.
+Definition hex_round (mant e2 p emin emaxe : Z) : option (Z * Z) :=
+  let '(n, d) := if 0 <=? e2 then (mant * 2 ^ e2, 1) else (mant, 2 ^ (- e2)) in round_rat n d p emin emaxe.
+
 Definition parse_float_core (s : string) (bits : Z) : pres Z :=
   let '(p, ebits) := if bits =? 32 then (24, 8) else (53, 11) in
   let bias := 2 ^ (ebits - 1) - 1 in
@@ -185,8 +191,7 @@ Definition parse_float_core (s : string) (bits : Z) : pres Z :=
             else if 1100 <? e2 + Z.log2 mant then PErr PRange
             else if e2 + Z.log2 mant <? -1200 then zero neg
             else
-              let '(n, d) := if 0 <=? e2 then (mant * 2 ^ e2, 1) else (mant, 2 ^ (- e2)) in
-              match round_rat n d p emin emaxe with
+              match hex_round mant e2 p emin emaxe with
               | None => PErr PRange
               | Some me => POk (float_bits neg (Some me) p ebits)
               end
@@ -216,8 +221,7 @@ Definition parse_float_core (s : string) (bits : Z) : pres Z :=
         else if 310 <? e10 then PErr PRange
         else if Z.log2 mant + 1 + 3 * e10 <? -1100 then zero neg
         else
-          let '(n, d) := if 0 <=? e10 then (mant * 10 ^ e10, 1) else (mant, 10 ^ (- e10)) in
-          match round_rat n d p emin emaxe with
+          match dec_round mant e10 p emin emaxe with
           | None => PErr PRange
           | Some me => POk (float_bits neg (Some me) p ebits)
           end
